@@ -686,14 +686,17 @@ impl<'a> BenchContext<'a> {
                 .try_reserve(self.options.sample_count.unwrap_or(1) as usize);
         }
 
+        // Measured (once per process) before the initial timestamp is taken,
+        // because `min_time` and `max_time` do not consider this as
+        // benchmarking time.
+        let bench_overheads = timer.bench_overheads();
+
         let skip_ext_time = self.options.skip_ext_time.unwrap_or_default();
         let initial_start = if skip_ext_time {
             None
         } else {
             Some(Timestamp::start(timer_kind))
         };
-
-        let bench_overheads = timer.bench_overheads();
 
         while {
             // Conditions for when sampling is over:
